@@ -160,3 +160,14 @@ Theorem C10_usable_implies_announced_partial :
   fst (register_outcome publish_ok) = true -> snd (register_outcome publish_ok) = true.
 Proof. exact usable_implies_announced_partial. Qed.
 Print Assumptions C10_usable_implies_announced_partial.
+
+(* ---------------- shutdown ---------------- *)
+(* The station's shutdown sequence ends with Cleanup(), after the pipeline's context was cancelled;
+   what Cleanup publishes then (exactly the Clear message, whatever the state of that context) empties
+   the detector's table whatever it held and whatever happened before: a restarted station inherits nothing. *)
+Theorem C10_shutdown_clears_detector :
+  forall cancelled st h t,
+  drun st (h ++ map (fun m => (t, EMsg m)) (cleanup cancelled)) = [] /\
+  forall k, tracked k (drun st (h ++ map (fun m => (t, EMsg m)) (cleanup cancelled))) = false.
+Proof. exact shutdown_clears_detector. Qed.
+Print Assumptions C10_shutdown_clears_detector.
